@@ -42,7 +42,7 @@ func init() {
 			"(5) the memtable stamp and the reported last sequence are the number the log assigned (batch entries share the batch's number because the log advances by one per batch); lastSeqNum is written only on the write path and by recovery. " +
 			"(6) every Append* reads the closed/rotating status while WAL.mu is held (the hand-over of the counter at rotation relies on it).",
 		NotDecided: "the actual numbers in a log directory after arbitrary histories; interactions between WAL retention and sequence numbers stored in SSTables.",
-		Rules:      []func(*Ctx, *Reporter){ruleWalMonotone, ruleStRotationSeqOnly, ruleStRecovery, ruleStStamps, ruleWalStatusUnderLock},
+		Rules:      []func(*Ctx, *Reporter){ruleWalMonotone, ruleStRotationSeqOnly, ruleStRecovery, ruleStStamps, ruleWalStatusUnderLock, ruleWalCounterUnderLock},
 	})
 }
 
